@@ -1265,15 +1265,23 @@ class Evaluator:
         """invariants supplied by the caller: elements of the containers named in self.assume_nonnull are non-null pointers
         (the registered addresses of the parameter store: C11.S2b / C12.H3 establish that only member addresses get in)"""
         nn = getattr(self, 'assume_nonnull', ())
-        if not nn:
+        if not nn and not getattr(self, 'assume_nonnull_mapped', ()):
             return c
         neg = False
         x = c
         while x[0] == 'not':
             neg = not neg
             x = x[1]
+        nm_ = getattr(self, 'assume_nonnull_mapped', ())
+
         def nonnull(t):
-            return t[0] == 'elem' and t[1][0] == 'sym' and t[1][1].split('.')[-1] in nn
+            if t[0] == 'elem' and t[1][0] == 'sym' and t[1][1].split('.')[-1] in nn:
+                return True
+            # mapped value of an entry found in a map whose values are known to be objects (find(k)->second)
+            if nm_ and t[0] == 'field' and t[2] == 'second' and t[1][0] == 'call' and t[1][1] in ('op:operator->', 'op:operator*') and len(t[1][2]) == 1:
+                it = t[1][2][0]
+                return it[0] == 'mcall' and it[2] == 'find' and it[1][0] == 'sym' and it[1][1].split('.')[-1] in nm_
+            return False
         if x[0] == 'cmp' and x[1] in ('==', '!=') and ((nonnull(x[2]) and x[3] == num(0)) or (nonnull(x[3]) and x[2] == num(0))):
             v = (x[1] == '!=') != neg
             return num(int(v))
@@ -1402,7 +1410,24 @@ class Evaluator:
                         cv = ('not', cv)
                     return self.exec_if(s, P, fr, self.assume(cv))
         if k == 'if':
-            return self.exec_if(s, P, fr, self.assume(self.E(s['c'], P, fr)))
+            c_if = self.assume(self.E(s['c'], P, fr))
+            if getattr(self, 'unroll_paths', False) and _first_ite(c_if) is not None:
+                # the condition selects between alternatives produced by a helper (check() == 1 with check() = c ? 1 : 0):
+                # decide it once per alternative
+                try:
+                    alts = split_ite([], c_if, limit=16)
+                except ValueError:
+                    alts = None
+                if alts and len(alts) > 1:
+                    outs = []
+                    for j, (cs_, c2) in enumerate(alts):
+                        Q = P if j == len(alts) - 1 else P.fork()
+                        for c_ in cs_:
+                            Q.conds.append(c_)
+                            Q.events.append(('cond', c_, s.get('l')))
+                        outs += self.exec_if(s, Q, fr, self.assume(c2))
+                    return outs
+            return self.exec_if(s, P, fr, c_if)
         if k == 'switch':
             return self.exec_switch(s, P, fr)
         if k in ('for', 'while', 'do'):
@@ -1452,6 +1477,10 @@ class Evaluator:
         if c[0] == 'not':
             a = Evaluator.truth(c[1])
             return None if a is None else (not a)
+        if c[0] == 'new':
+            return True         # the result of a new-expression is not null
+        if c[0] == 'cmp' and c[1] in ('==', '!=') and ((c[2][0] in ('new', 'addr') and c[3] == ('num', Fraction(0))) or (c[3][0] in ('new', 'addr') and c[2] == ('num', Fraction(0)))):
+            return c[1] == '!='
         if c[0] == 'cmp':
             def cv(t):
                 if t[0] == 'num':
@@ -1811,6 +1840,20 @@ def _first_ite(t):
             r = _first_ite(x)
             if r is not None:
                 return [2, i] + r
+    elif t[0] == 'cmp':
+        for j in (2, 3):
+            r = _first_ite(t[j])
+            if r is not None:
+                return [j] + r
+    elif t[0] == 'not':
+        r = _first_ite(t[1])
+        if r is not None:
+            return [1] + r
+    elif t[0] in ('and', 'or'):
+        for j in (1, 2):
+            r = _first_ite(t[j])
+            if r is not None:
+                return [j] + r
     return None
 
 
